@@ -69,8 +69,19 @@ def layer_checks(ck, rho, sl, nspin, labels):
             for a0, gm, tm in ((1.0, 0.0, 0.03125), (2.0, 0.04, 0.02)):
                 out = S.get_cider_exponent(rs[s].copy(), sig[s].copy(), tau[s].copy(), a0=a0, grad_mul=gm, tau_mul=tm, rhocut=1e-10 / nspin, nspin=nspin)
                 finite(ck, "layer:get_cider_exponent:grad_mul=%s" % ("0" if gm == 0 else "pos"), out, det)
-                out = S.get_cider_exponent_gga(rs[s].copy(), sig[s].copy(), a0=a0, grad_mul=gm, rhocut=1e-10 / nspin, nspin=nspin)
-                finite(ck, "layer:get_cider_exponent_gga", out, det)
+                outg = S.get_cider_exponent_gga(rs[s].copy(), sig[s].copy(), a0=a0, grad_mul=gm, rhocut=1e-10 / nspin, nspin=nspin)
+                finite(ck, "layer:get_cider_exponent_gga", outg, det)
+                # below the cutoff the exponent is clamped to a constant: every derivative is exactly zero there
+                # (a non-zero one is a spurious contribution to the potential at points that carry no density)
+                below = rs[s] < 1e-10 / nspin
+                for nm, o in (("get_cider_exponent", out), ("get_cider_exponent_gga", outg)):
+                    for k, d in enumerate(o[1:]):
+                        if np.any(np.asarray(d)[below] != 0.0):
+                            ck.violation("layer:%s:derivative-not-zero-below-cutoff:grad_mul=%s" % (nm, "0" if gm == 0 else "pos"),
+                                         dict(det, which=("drho", "dsigma", "dtau")[k], max=float(np.abs(np.asarray(d)[below]).max())))
+                            break
+                    if below.any() and np.ptp(np.asarray(o[0])[below]) != 0.0:
+                        ck.violation("layer:%s:value-not-clamped-below-cutoff" % nm, det)
             finite(ck, "layer:get_s2", [S.get_s2(rs[s], sig[s])], det)
             finite(ck, "layer:ds2", S.ds2(rs[s], sig[s]), det)
             finite(ck, "layer:get_alpha", [S.get_alpha(rs[s], sig[s], tau[s])], det)
@@ -87,12 +98,16 @@ def layer_checks(ck, rho, sl, nspin, labels):
 def model_checks(ck, rho, points, mode, nspin, sl, rng, seed):
     """eval_xc_cider on the synthetic batch: finite everywhere, exact zeros where masked"""
     N = rho.shape[-1]
-    for mix, evk in (("xmix_c", "rbf" if mode != "POL" else "spinrbf"), ("libxc2", "kernel"), ("pure", "two")):
+    # (mixing recipe, evaluator, baseline pair of the mapped kernel): the baselines are where 0/0 arises at empty points
+    # (spin polarisation zeta, reduced gradient), so every native pair and the libxc pairs incl. the SS/OS split take part
+    for mix, evk, base in (("xmix_c", "rbf" if mode != "POL" else "spinrbf", "lda"), ("libxc2", "kernel", "lda"), ("pure", "two", "lda"),
+                           ("pure", "rbf" if mode != "POL" else "spinrbf", "gga"), ("xmix", "rbf" if mode != "POL" else "spinrbf", "damp"),
+                           ("pure", "rbf" if mode != "POL" else "spinrbf", "chachiyo"), ("libxc2", "kernel", "gga"), ("libxc2", "kernel", "ssos")):
         if mode == "POL" and (mix == "libxc2" or evk != "spinrbf"):
             continue
         if mix == "libxc2" and e2e.SLLEVEL[sl] != "MGGA":
             continue
-        cfg = {"sl": sl, "nldf": "j", "sdmx": "none", "plan": "gaussian", "interp": "onsite_direct", "eval": evk, "mode": mode, "mix": mix}
+        cfg = {"sl": sl, "nldf": "j", "sdmx": "none", "plan": "gaussian", "interp": "onsite_direct", "eval": evk, "mode": mode, "mix": mix, "base": base}
         model = e2e.make_mapped_model(cfg, seed)
         st = model.settings
         kw = e2e.MIX[mix]
@@ -106,7 +121,7 @@ def model_checks(ck, rho, points, mode, nspin, sl, rng, seed):
         # raw nonlocal features scale like the density they integrate; zero where the density is zero
         nl = rng.uniform(0.2, 2.0, size=(nspin, nnl, N)) * np.minimum(1.0, rho[:, :1] * 1e3)
         rr = rho if e2e.SLLEVEL[sl] == "MGGA" else rho[:, :4]
-        tag = "%s:%s:nspin=%d:%s" % (mix, mode, nspin, sl)
+        tag = "%s:%s:nspin=%d:%s%s" % (mix, mode, nspin, sl, "" if base == "lda" else ":base=" + base)
         with np.errstate(all="ignore"), warnings.catch_warnings():
             warnings.simplefilter("ignore")
             try:
